@@ -235,12 +235,12 @@ def tie(ctx):
     thorough = ctx.tier == "thorough"
     schemas = G.pick_schemas(ctx.tier, ctx.seed)
     n_hist = 2
-    lengths = [30, 40] if thorough else [24, 30]
+    lengths = [70, 40] if thorough else [64, 24]    # history 0: seed + enrich + sweep (~60 calls) + random; history 1: random
     cases = []
     for sch in schemas:
         for hi in range(n_hist):
-            h = G.gen_history(rng, sch, lengths[hi % len(lengths)], enrich="early" if hi % 2 == 0 else False)
-            cases.append({"schema": sch, "hist": list(h.lines), "ops": dict(h.ops_used)})
+            h = G.gen_history(rng, sch, lengths[hi % len(lengths)], enrich="early" if hi % 2 == 0 else False, sweep=hi % 2 == 0)
+            cases.append({"schema": sch, "hist": list(h.lines), "ops": dict(h.ops_used), "names": list(h.op_names)})
     # stream A (reopen after every call), B (one session), C (each sampled prefix in its own session)
     jobs = []
     for ci, c in enumerate(cases):
@@ -257,6 +257,7 @@ def tie(ctx):
     calls = []           # (case, line, result, kinds, autocommit)
     apiA, apiB = {}, {}
     distinct = set()
+    covered = set()      # (family, public mutating operation) that ran successfully and was followed by close + load
     for (stream, ci, k, sc), (o, _) in zip(jobs, outs):
         c = cases[ci]
         sch, fam = c["schema"], G.family(c["schema"])
@@ -289,8 +290,10 @@ def tie(ctx):
         if stream == "A":
             for k_, v in c["ops"].items():
                 hist_ops[k_] = hist_ops.get(k_, 0) + v
-            for line, res, kinds, auto in call_records(sc, o):
+            for (line, res, kinds, auto), nm in zip(call_records(sc, o), c["names"]):
                 calls.append((c, line, res, kinds, auto))
+                if res.startswith("ok"):
+                    covered.add((fam, nm))
                 if res.startswith("throw"):
                     rejected += 1
                 if kinds is not None:
@@ -302,6 +305,10 @@ def tie(ctx):
                     p = parse_obs(o[i + 1])
                     if p:
                         apiB[(ci, int(l.split()[1]))] = p["api"]
+    uncovered = sorted("%s %s" % (f, o) for f in sorted({G.family(s_) for s_ in schemas}) for o in G.ALL_OPS if (f, o) not in covered)
+    if uncovered:
+        divergences.append({"input": "coverage of the public mutating operations", "impl": "never followed by close + load after a successful call: " + ", ".join(uncovered[:12]),
+                            "model": "every public mutating operation of both generations (Hist.sweep)"})
     # reopening in between is invisible (C10_reopen_invisible): A and B observe the same at every prefix
     invisible = 0
     for key, a in apiA.items():
@@ -405,6 +412,7 @@ def tie(ctx):
         "samples": [jobs[0][3][:12] + ["..."], cscripts[0]],
         "histograms": {
             "schemas": schemas, "histories": len(cases), "history_operations": hist_ops, "calls_that_threw": rejected,
+            "mutating_operations_covered(family x op)": len(covered), "mutating_operations_uncovered": uncovered,
             "prefixes_closed_and_loaded": prefix_checked,
             "raw_dump_equal_after_load": raw_eq, "raw_dump_differs_after_load(not an alarm)": raw_ne,
             "reopen_invisible(prefixes where kept-open and reopened sessions agree)": invisible,
